@@ -1,21 +1,37 @@
 import FranzVerif.Model.Commit
 import FranzVerif.Proof.Commit
+import FranzVerif.Proof.CommitInv
 /-! C09 — offset commits take effect in the order issued. Theorems over ALL accepted histories of
-`Model.Commit`; the tie is the history correspondence of the `cmt` scenarios. -/
+`Model.Commit`; the tie is the history correspondence of the `cmt` scenarios.
+
+All three statements hold as first written and the observables are unchanged: `lastApplied`'s scan pairs an
+answer with the newest request of that number and partition, exactly what the monitor's `s.wire.find?` does on
+its newest-first list (`Proof.Commit.lastApplied_go_run`); the existence of CO/GC events for every partition
+with a successful commit is what the `…-missing` rules of `quiesce` give. -/
 namespace Props.C09
 open Model.Commit Proof.Commit
 
 /-- Commits reach the group coordinator in the order issued: the sequence of commit offsets (commit k carries
 1000+k) seen at the coordinator never decreases, whatever retries, slow answers and rebalances happen. -/
 theorem commits_arrive_in_issue_order (h : List Ev) (s : St) (hacc : run {} h = some s) :
-    (wireOffsets h).Pairwise (· ≤ ·) := by
-  sorry
+    (wireOffsets h).Pairwise (· ≤ ·) :=
+  (wire_sorted hacc).2
 
 /-- Every request at the coordinator belongs to a commit that was issued before, for a partition that commit named. -/
 theorem only_issued_commits_arrive (h₁ h₂ : List Ev) (n part off : Nat)
     (hacc : (run {} (h₁ ++ Ev.wireReq n part off :: h₂)).isSome) :
     ∃ k offs, Ev.issue k offs ∈ h₁ ∧ off = 1000 + k ∧ (part, off) ∈ offs := by
-  sorry
+  obtain ⟨s, hs⟩ := Option.isSome_iff_exists.1 hacc
+  obtain ⟨s₁, hr₁, hchk, _⟩ := run_split hs
+  have hi := inv_of_run hr₁
+  obtain ⟨_, i, hmem, hoff, o, ho, hpart⟩ := wireReq_check hchk
+  refine ⟨i.1, i.2, (hi.issued i).1 hmem, hoff.symm, ?_⟩
+  have h2 := hi.enc i hmem o ho
+  have : o = (part, off) := by
+    obtain ⟨o1, o2⟩ := o
+    simp only at hpart h2
+    rw [hpart, h2, hoff]
+  rwa [this] at ho
 
 /-- After all commits finished, each partition's committed offset equals its value in the last successful
 commit, and CommittedOffsets reports the same value. -/
@@ -24,6 +40,96 @@ theorem final_offsets_are_last_successful_commit (h : List Ev) (s : St) (hacc : 
     (∀ k offs, Ev.issue k offs ∈ h → ∃ ok, Ev.finish k ok ∈ h) ∧
     (∃ g, Ev.groupCommitted p g ∈ h) ∧ (∀ g, Ev.groupCommitted p g ∈ h → g = (off : Int)) ∧
     (∃ c, Ev.clientCommitted p c ∈ h) ∧ (∀ c, Ev.clientCommitted p c ∈ h → c = (off : Int)) := by
-  sorry
+  obtain ⟨s₁, hr₁, hchk⟩ := run_snoc hacc
+  have hi := inv_of_run hr₁
+  obtain ⟨q1, q2, q3, q4, q5⟩ := quiesce_check hchk (by rw [hi.incomplete]; exact hcomplete)
+  have hcur : curOf s₁ p = some off := by rw [lastApplied_run hr₁]; exact hlast
+  obtain ⟨happ, a, ha, hap⟩ := appliedOf_of_curOf hcur
+  refine ⟨?_, ?_, ?_, ?_, ?_⟩
+  · intro k offs hk
+    obtain ⟨f, hf, hfk⟩ := q1 (k, offs) ((hi.issued (k, offs)).2 hk)
+    refine ⟨f.2, ?_⟩
+    have := (hi.finished f).1 hf
+    rwa [hfk] at this
+  · obtain ⟨g, hg, hgp⟩ := q3 a ha
+    refine ⟨g.2, ?_⟩
+    have := (hi.gc g).1 hg
+    rwa [hgp, hap] at this
+  · intro g hg
+    have := q2 (p, g) ((hi.gc (p, g)).2 hg) ⟨a, ha, hap⟩
+    simpa only [happ] using this
+  · obtain ⟨g, hg, hgp⟩ := q5 a ha
+    refine ⟨g.2, ?_⟩
+    have := (hi.co g).1 hg
+    rwa [hgp, hap] at this
+  · intro g hg
+    have := q4 (p, g) ((hi.co (p, g)).2 hg) ⟨a, ha, hap⟩
+    simpa only [happ] using this
+
+/-- Non-vacuity: commits 1..3 over partitions 0 and 1. Commit 1 reaches the coordinator in request 1 and is
+answered; commit 2 (request 2) is answered with a retriable error (15) and retried in request 3; commit 3 is
+issued asynchronously before commit 2 finished and arrives (request 4) after commit 2's retry; the final
+CommittedOffsets / OffsetFetch values are those of commit 3 for both partitions. -/
+example : accepts
+    [.issue 1 [(0, 1001), (1, 1001)], .wireReq 1 0 1001, .wireReq 1 1 1001, .wireResp 1 0 0, .wireResp 1 1 0, .finish 1 true,
+     .issue 2 [(0, 1002), (1, 1002)], .wireReq 2 0 1002, .wireReq 2 1 1002,
+     .issue 3 [(0, 1003), (1, 1003)],
+     .wireResp 2 0 15, .wireResp 2 1 15, .wireReq 3 0 1002, .wireReq 3 1 1002, .wireResp 3 0 0, .wireResp 3 1 0,
+     .finish 2 true,
+     .wireReq 4 0 1003, .wireReq 4 1 1003, .wireResp 4 0 0, .wireResp 4 1 0, .finish 3 true,
+     .clientCommitted 0 1003, .clientCommitted 1 1003, .groupCommitted 0 1003, .groupCommitted 1 1003,
+     .quiesce] = true := by decide
+
+/-- The observables on that history (without the closing `quiesce`). -/
+example : wireOffsets
+    [.issue 1 [(0, 1001), (1, 1001)], .wireReq 1 0 1001, .wireReq 1 1 1001, .wireResp 1 0 0, .wireResp 1 1 0, .finish 1 true,
+     .issue 2 [(0, 1002), (1, 1002)], .wireReq 2 0 1002, .wireReq 2 1 1002,
+     .issue 3 [(0, 1003), (1, 1003)],
+     .wireResp 2 0 15, .wireResp 2 1 15, .wireReq 3 0 1002, .wireReq 3 1 1002, .wireResp 3 0 0, .wireResp 3 1 0,
+     .finish 2 true,
+     .wireReq 4 0 1003, .wireReq 4 1 1003, .wireResp 4 0 0, .wireResp 4 1 0, .finish 3 true]
+    = [1001, 1001, 1002, 1002, 1002, 1002, 1003, 1003] := by decide
+example : lastApplied 1
+    [.issue 1 [(0, 1001), (1, 1001)], .wireReq 1 0 1001, .wireReq 1 1 1001, .wireResp 1 0 0, .wireResp 1 1 0, .finish 1 true,
+     .issue 2 [(0, 1002), (1, 1002)], .wireReq 2 0 1002, .wireReq 2 1 1002,
+     .issue 3 [(0, 1003), (1, 1003)],
+     .wireResp 2 0 15, .wireResp 2 1 15, .wireReq 3 0 1002, .wireReq 3 1 1002, .wireResp 3 0 0, .wireResp 3 1 0,
+     .finish 2 true,
+     .wireReq 4 0 1003, .wireReq 4 1 1003, .wireResp 4 0 0, .wireResp 4 1 0, .finish 3 true] = some 1003 := by decide
+
+/-- Partition 1's last commit (3) fails with a non-retriable error: its final offset is commit 2's, partition 0's
+is commit 3's. -/
+example : accepts
+    [.issue 2 [(0, 1002), (1, 1002)], .wireReq 1 0 1002, .wireReq 1 1 1002, .wireResp 1 0 0, .wireResp 1 1 0, .finish 2 true,
+     .issue 3 [(0, 1003), (1, 1003)], .wireReq 2 0 1003, .wireReq 2 1 1003, .wireResp 2 0 0, .wireResp 2 1 25, .finish 3 false,
+     .clientCommitted 0 1003, .clientCommitted 1 1002, .groupCommitted 0 1003, .groupCommitted 1 1002,
+     .quiesce] = true := by decide
+
+/-- An older commit (2) arriving after a newer one (3): refused. -/
+example : accepts
+    [.issue 2 [(0, 1002)], .issue 3 [(0, 1003)],
+     .wireReq 1 0 1003, .wireResp 1 0 0, .wireReq 2 0 1002, .wireResp 2 0 0, .finish 3 true, .finish 2 true,
+     .clientCommitted 0 1002, .groupCommitted 0 1002, .quiesce] = false := by decide
+
+/-- A request for a commit that was never issued, or for a partition the commit did not name: refused. -/
+example : accepts [.issue 2 [(0, 1002)], .wireReq 1 0 1003] = false := by decide
+example : accepts [.issue 2 [(0, 1002)], .wireReq 1 1 1002] = false := by decide
+
+/-- A final group offset that is not the last successful commit (1002 instead of 1003): refused; so is a
+CommittedOffsets value that differs, a missing final value, and a commit that never finished. -/
+example : accepts
+    [.issue 2 [(0, 1002)], .wireReq 1 0 1002, .wireResp 1 0 0, .finish 2 true,
+     .issue 3 [(0, 1003)], .wireReq 2 0 1003, .wireResp 2 0 0, .finish 3 true,
+     .clientCommitted 0 1003, .groupCommitted 0 1002, .quiesce] = false := by decide
+example : accepts
+    [.issue 2 [(0, 1002)], .wireReq 1 0 1002, .wireResp 1 0 0, .finish 2 true,
+     .issue 3 [(0, 1003)], .wireReq 2 0 1003, .wireResp 2 0 0, .finish 3 true,
+     .clientCommitted 0 1002, .groupCommitted 0 1003, .quiesce] = false := by decide
+example : accepts
+    [.issue 3 [(0, 1003)], .wireReq 2 0 1003, .wireResp 2 0 0, .finish 3 true,
+     .clientCommitted 0 1003, .quiesce] = false := by decide
+example : accepts
+    [.issue 3 [(0, 1003)], .wireReq 2 0 1003, .wireResp 2 0 0,
+     .clientCommitted 0 1003, .groupCommitted 0 1003, .quiesce] = false := by decide
 
 end Props.C09
